@@ -664,10 +664,18 @@ func (d *drv) checkSpecial(sp special) {
 			continue
 		}
 		class := "special:" + sp.Kind + ":" + dir
-		if len(sp.Ref.Kids) > 1 && dir == "accepts" {
-			// the extra constraint is the only thing that can reject here
-			if r1 := eval(sp.Ref.Kids[0], in.V); r1.t == yes {
-				class = "special:" + sp.Kind + ":constraints-ignored"
+		if sp.Kind == "type-slot-validator" {
+			// localise: if a part of the schema already disagrees on its own
+			// (another defect seen through this table) that part is blamed;
+			// only a disagreement of the combination itself belongs to this table
+			bc, where := d.blame(sp.Ref, subject{in.Src, in.V}, dir, 0)
+			if !strings.HasPrefix(where, sp.Ref.Src()+" on ") {
+				class = bc
+			} else if len(sp.Ref.Kids) > 1 && dir == "accepts" {
+				// the extra constraint is the only thing that can reject here
+				if r1 := eval(sp.Ref.Kids[0], in.V); r1.t == yes {
+					class = "special:" + sp.Kind + ":constraints-ignored"
+				}
 			}
 		}
 		if !d.bump(class) {
@@ -683,6 +691,49 @@ func (d *drv) checkSpecial(sp special) {
 }
 
 // ---------------------------------------------------------------------------
+
+// parallelRange is core.ParallelRange without its "stop after 40 recorded
+// violations" cut-off: on the unchanged tree this driver records up to 3 cases
+// for each of its 17 known-finding classes, and the cut-off (which counts
+// known findings too) would end the enumeration before tables M and S run.
+// Only the soft deadline stops it.
+func parallelRange[W any](r *core.Run, n int64, newWorker func(id int) W, fn func(w W, i int64)) {
+	const chunk = 64
+	var next int64
+	var wg sync.WaitGroup
+	var capped int32
+	for id := 0; id < r.Workers; id++ {
+		wg.Add(1)
+		go func(id int) {
+			defer wg.Done()
+			var w W
+			if newWorker != nil {
+				w = newWorker(id)
+			}
+			for {
+				lo := atomic.AddInt64(&next, chunk) - chunk
+				if lo >= n {
+					return
+				}
+				if r.Expired() {
+					atomic.StoreInt32(&capped, 1)
+					return
+				}
+				hi := lo + chunk
+				if hi > n {
+					hi = n
+				}
+				for i := lo; i < hi; i++ {
+					fn(w, i)
+				}
+			}
+		}(id)
+	}
+	wg.Wait()
+	if capped != 0 {
+		r.Cap(fmt.Sprintf("soft deadline reached in a range of %d (next unvisited index ≈ %d)", n, atomic.LoadInt64(&next)))
+	}
+}
 
 func dedup(ns []*Node) []*Node {
 	seen := map[string]bool{}
@@ -741,17 +792,17 @@ func run(r *core.Run) {
 	r.Assume("json numbers decode as floats (docs/lang.md); decoding fidelity itself is C13's subject")
 
 	// --- W
-	core.ParallelRange(r, int64(len(schemas)), d.newWorker, func(w *worker, i int64) {
+	parallelRange(r, int64(len(schemas)), d.newWorker, func(w *worker, i int64) {
 		d.checkSchema(w, i, schemas[i])
 	})
 	r.AddStates(int64(len(schemas)))
 	// --- M
-	core.ParallelRange(r, int64(len(mals)), nil, func(_ struct{}, i int64) {
+	parallelRange(r, int64(len(mals)), nil, func(_ struct{}, i int64) {
 		d.checkMalformed(mals[i])
 	})
 	r.AddStates(int64(len(mals)))
 	// --- S
-	core.ParallelRange(r, int64(len(sps)), nil, func(_ struct{}, i int64) {
+	parallelRange(r, int64(len(sps)), nil, func(_ struct{}, i int64) {
 		d.checkSpecial(sps[i])
 	})
 	r.AddStates(int64(len(sps)))
